@@ -413,3 +413,143 @@ pub mod partial_app {
         }
     }
 }
+
+// --- an app whose types have a compact and a readable serde form -------------------------------
+//
+// `Tok` mirrors what uuid does: a hex string for human-readable formats, raw bytes otherwise.
+// The bridge speaks bincode (not human-readable), so the compact form is the wire and is what the
+// generated types have to describe. Such types cannot be traced without samples; they are
+// registered the documented way (`register_type_with_samples`, then `register_app`).
+
+pub mod readable_app {
+    use std::net::IpAddr;
+
+    use crux_core::macros::{Effect, Export};
+    use crux_core::render::{render, Render};
+    use crux_core::Command;
+    use serde::de::Visitor;
+    use serde::{Deserialize, Deserializer, Serialize, Serializer};
+    use uuid::Uuid;
+
+    #[derive(Clone, Copy, Debug, PartialEq, Eq, Default)]
+    pub struct Tok(pub [u8; 4]);
+
+    impl Serialize for Tok {
+        fn serialize<S: Serializer>(&self, s: S) -> Result<S::Ok, S::Error> {
+            if s.is_human_readable() {
+                s.serialize_str(&self.0.iter().map(|b| format!("{b:02x}")).collect::<String>())
+            } else {
+                s.serialize_bytes(&self.0)
+            }
+        }
+    }
+
+    struct TokVisitor;
+
+    impl<'de> Visitor<'de> for TokVisitor {
+        type Value = Tok;
+        fn expecting(&self, f: &mut std::fmt::Formatter) -> std::fmt::Result {
+            f.write_str("a token: 8 hex digits or 4 bytes")
+        }
+        fn visit_str<E: serde::de::Error>(self, v: &str) -> Result<Tok, E> {
+            if v.len() != 8 || !v.is_ascii() {
+                return Err(E::custom("a token has 8 hex digits"));
+            }
+            let mut out = [0u8; 4];
+            for (i, o) in out.iter_mut().enumerate() {
+                *o = u8::from_str_radix(&v[2 * i..2 * i + 2], 16).map_err(E::custom)?;
+            }
+            Ok(Tok(out))
+        }
+        fn visit_bytes<E: serde::de::Error>(self, v: &[u8]) -> Result<Tok, E> {
+            <[u8; 4]>::try_from(v).map(Tok).map_err(|_| E::custom("a token has 4 bytes"))
+        }
+    }
+
+    impl<'de> Deserialize<'de> for Tok {
+        fn deserialize<D: Deserializer<'de>>(d: D) -> Result<Tok, D::Error> {
+            if d.is_human_readable() {
+                d.deserialize_str(TokVisitor)
+            } else {
+                d.deserialize_bytes(TokVisitor)
+            }
+        }
+    }
+
+    #[derive(Serialize, Deserialize, Debug, Clone, PartialEq, Eq)]
+    pub struct Holder {
+        pub tok: Tok,
+        pub maybe: Option<Tok>,
+        pub many: Vec<Tok>,
+        pub session: Uuid,
+        pub peer: IpAddr,
+    }
+
+    #[derive(Serialize, Deserialize, Debug, Clone, PartialEq, Eq)]
+    pub enum Event {
+        Leave,
+        Join(Tok),
+        Hold(Holder),
+        Session(Uuid),
+        Peer(IpAddr),
+    }
+
+    #[derive(Default)]
+    pub struct Model {
+        pub last: String,
+    }
+
+    #[derive(Serialize, Deserialize, Debug, PartialEq, Eq)]
+    pub struct ViewModel {
+        pub last: String,
+    }
+
+    #[derive(Effect, Export)]
+    #[allow(dead_code)]
+    pub struct Capabilities {
+        pub render: Render<Event>,
+    }
+
+    #[derive(Default)]
+    pub struct ReadableApp;
+
+    impl crux_core::App for ReadableApp {
+        type Event = Event;
+        type Model = Model;
+        type ViewModel = ViewModel;
+        type Capabilities = Capabilities;
+        type Effect = Effect;
+
+        fn update(&self, event: Event, model: &mut Model, _caps: &Capabilities) -> Command<Effect, Event> {
+            // what the app understood, in a form that does not depend on any serde impl
+            model.last = format!("{event:?}");
+            render()
+        }
+
+        fn view(&self, model: &Model) -> ViewModel {
+            ViewModel { last: model.last.clone() }
+        }
+    }
+
+    /// The samples a user hands to `register_type_with_samples` (every variant that cannot be
+    /// traced blindly, options filled and sequences non-empty, both address families).
+    pub fn samples() -> Vec<Event> {
+        let holder = Holder {
+            tok: Tok([1, 2, 3, 4]),
+            maybe: Some(Tok([5, 6, 7, 8])),
+            many: vec![Tok([9, 10, 11, 12])],
+            session: Uuid::from_u128(0x0123_4567_89ab_cdef_0123_4567_89ab_cdef),
+            peer: IpAddr::from([10, 0, 0, 1]),
+        };
+        let mut v6 = holder.clone();
+        v6.peer = IpAddr::from([0x2001, 0xdb8, 0, 0, 0, 0, 0, 1]);
+        vec![
+            Event::Join(Tok([0xde, 0xad, 0xbe, 0xef])),
+            Event::Hold(holder),
+            Event::Hold(v6),
+            Event::Session(Uuid::from_u128(1)),
+            Event::Peer(IpAddr::from([127, 0, 0, 1])),
+            Event::Peer(IpAddr::from([0, 0, 0, 0, 0, 0, 0, 1u16])),
+        ]
+    }
+}
